@@ -76,6 +76,8 @@ BUILTIN_RAISES = [
     ('user-exception-str-raises-base', "class Stop(BaseException):\n    pass\nclass MyError(Exception):\n    def __str__(self):\n        raise Stop()\nraise MyError('mine')"),
     ('user-exception-repr-exits', "class MyError(Exception):\n    def __repr__(self):\n        raise SystemExit\nraise MyError('mine')"),
     ('user-exception-setattr-raises', "class MyError(Exception):\n    def __setattr__(self, k, v):\n        raise ValueError('frozen')\nraise MyError('mine')"),
+    ('user-exception-setattr-exits', "import sys\nclass MyError(Exception):\n    def __setattr__(self, k, v):\n        sys.exit(4)\nraise MyError('mine')"),
+    ('user-exception-getattribute-raises', "class MyError(Exception):\n    def __getattribute__(self, name):\n        raise RuntimeError('no ' + name)\nraise MyError('mine')"),
     ('user-exception-len-zero', "class MyError(Exception):\n    def __len__(self):\n        return 0\nraise MyError('mine')"),
     ('user-exception-bool-raises', "class MyError(Exception):\n    def __bool__(self):\n        raise RuntimeError('no bool')\nraise MyError('mine')"),
     ('user-exception-eq-raises', "class MyError(Exception):\n    def __eq__(self, other):\n        raise RuntimeError('no eq')\n    __hash__ = None\nraise MyError('mine')"),
@@ -328,7 +330,7 @@ def reference(files, entry, inputs, call_args=()):
                 sys.setrecursionlimit(real_limit)       # (first of all: the body may have lowered it to just above its own depth)
                 r.exc = e
                 r.cls = class_name(e)
-                tb = traceback.extract_tb(e.__traceback__)
+                tb = traceback.extract_tb(sys.exc_info()[2])      # (not e.__traceback__: the object may answer every attribute with an error)
                 if tb:
                     r.innermost_file = tb[-1].filename
                     if tb[-1].filename in STUDENT_FILES:
